@@ -536,7 +536,8 @@ impl C02 {
 			Err(e) => {
 				out.class(if honest { "finalize:honest-err" } else { "finalize:mutated-err" });
 				if honest {
-					let acceptable_late = flow == 1 && (e.contains("Not enough funds") || e.contains("Fee Error") || e.contains("Cannot split change") || e.contains("Transaction error"));
+					// a late-locked send selects at finalize time: it may legitimately lack funds by then, nothing else
+					let acceptable_late = flow == 1 && (e.contains("Not enough funds") || e.contains("Fee Error") || e.contains("Cannot split change"));
 					let ttl_expired = e.contains("Expired");
 					if !acceptable_late && !ttl_expired {
 						out.fail("c02:honest-finalize-failed", format!("flow {} honest reply refused: {}", flow, e));
@@ -577,7 +578,7 @@ impl C02 {
 						}
 						Err(e2) => {
 							out.class("retry-honest:err");
-							let acceptable_late = flow == 1;
+							let acceptable_late = flow == 1 && (e2.contains("Not enough funds") || e2.contains("Fee Error") || e2.contains("Cannot split change"));
 							if !acceptable_late && !e2.contains("Expired") {
 								out.fail("c02:honest-finalize-failed-after-refused-reply", format!("genuine reply refused after an altered one had been refused ({}): {}", e, e2));
 							}
